@@ -101,6 +101,8 @@ class Check:
             i += 1
         if self.tier not in ("quick", "thorough"):
             self.tier = "quick"
+        if self.replay:
+            self.do_replay()
         self.seed = int(os.environ.get("VERIF_SEED", "0") or 0)
         self.t0 = time.time()
         self.leaves = 0
@@ -129,6 +131,25 @@ class Check:
         self.timeout_ms = 10000 if self.tier == "quick" else 60000
         self._s = None
         self._sq = 0
+
+    def do_replay(self):
+        """re-run the native request recorded in a replay file against the current /repo build"""
+        from vlib import build
+        with open(self.replay) as f:
+            rec = json.load(f)
+        crate = rec.get("crate", "hcore" if self.pid in ("C04", "C05") else "hrecv")
+        nat = Native(build.build_native(crate))
+        got = nat.ask(rec["request"])
+        nat.close()
+        print("request :", rec["request"])
+        print("expected:", json.dumps(rec.get("expected"))[:1500])
+        print("recorded:", json.dumps(rec.get("observed"))[:1500])
+        print("now     :", json.dumps(got)[:1500])
+        if got == rec.get("observed"):
+            print("VIOLATION property=%s replay=%s (still reproduces)" % (self.pid, self.replay))
+            sys.exit(1)
+        print("the recorded violation does not reproduce on the current tree")
+        sys.exit(0)
 
     def _solver(self):
         if self._s is None or self._sq > 2000:
@@ -291,6 +312,7 @@ class Check:
         os.makedirs(os.path.join(VERIF, "replays"), exist_ok=True)
         dig = hashlib.sha256(json.dumps(replay, sort_keys=True, default=str).encode()).hexdigest()[:12]
         path = os.path.join(VERIF, "replays", "%s-%s.json" % (self.pid, dig))
+        replay.setdefault("crate", getattr(self, "crate", None) or ("hcore" if self.pid in ("C04", "C05") else "hrecv"))
         with open(path, "w") as f:
             json.dump(replay, f, indent=1, default=str)
         self.violations.append((key, what, path))
